@@ -47,19 +47,22 @@ type VC struct {
 	inlined   map[string]bool
 	usedContracts map[string]bool
 	warnings  []string
+	strOfArr  map[string]string // content-array constant of []byte(s) -> s
+	defs      map[string]string // defined name -> term
+	globalsDone map[string]bool
 }
 
 func NewVC(prog *Program, mode Mode, name string) *VC {
 	vc := &VC{prog: prog, mode: mode, name: name, decls: map[string]string{}, strlits: map[string]string{},
 		heapSorts: map[string]string{}, typeIDs: map[string]int{}, onceAx: map[string]bool{}, assumptions: map[string]bool{},
-		oblCount: map[string]int{}, inlined: map[string]bool{}, usedContracts: map[string]bool{}}
+		oblCount: map[string]int{}, inlined: map[string]bool{}, usedContracts: map[string]bool{}, strOfArr: map[string]string{}, defs: map[string]string{}, globalsDone: map[string]bool{}}
 	vc.declare("Str", "(declare-sort Str 0)")
-	vc.declare("str.empty", "(declare-const str.empty Str)")
-	vc.declare("str.len", "(declare-fun str.len (Str) "+vc.idxSort()+")")
-	vc.declare("str.at", "(declare-fun str.at (Str "+vc.idxSort()+") "+vc.isort(8)+")")
-	vc.axiom("(= (str.len str.empty) " + vc.idx(0) + ")")
-	vc.axiom("(forall ((s Str)) (! " + vc.ile(vc.idx(0), "(str.len s)") + " :pattern ((str.len s))))")
-	vc.axiom("(forall ((s Str)) (! (=> (= (str.len s) " + vc.idx(0) + ") (= s str.empty)) :pattern ((str.len s))))")
+	vc.declare("gs.empty", "(declare-const gs.empty Str)")
+	vc.declare("gs.len", "(declare-fun gs.len (Str) "+vc.idxSort()+")")
+	vc.declare("gs.at", "(declare-fun gs.at (Str "+vc.idxSort()+") "+vc.isort(8)+")")
+	vc.axiom("(= (gs.len gs.empty) " + vc.idx(0) + ")")
+	vc.axiom("(forall ((s Str)) (! " + vc.ile(vc.idx(0), "(gs.len s)") + " :pattern ((gs.len s))))")
+	vc.axiom("(forall ((s Str)) (! (=> (= (gs.len s) " + vc.idx(0) + ") (= s gs.empty)) :pattern ((gs.len s))))")
 	return vc
 }
 
@@ -121,6 +124,7 @@ func (vc *VC) define(prefix, sort, term string) string {
 	}
 	n := vc.fresh(prefix, sort)
 	vc.axiom("(= " + n + " " + term + ")")
+	vc.defs[n] = term
 	return n
 }
 
@@ -330,7 +334,49 @@ func (vc *VC) elemArray(st *State, t types.Type, arr string) string {
 		panic("elemArray on composite element type " + t.String())
 	}
 	h := vc.hget(st, elemKey(t), vc.elemSort(cs[0].sort))
+	// peel (store H arr V) when the same array reference is selected (through defined names)
+	cur := h
+	for k := 0; k < 4; k++ {
+		if d, ok := vc.defs[cur]; ok {
+			cur = d
+		}
+		pfx := "(store "
+		if strings.HasPrefix(cur, pfx) && strings.HasSuffix(cur, ")") {
+			parts := splitSexp(cur[len(pfx) : len(cur)-1])
+			if len(parts) == 3 && parts[1] == arr {
+				return parts[2]
+			}
+		}
+		break
+	}
 	return "(select " + h + " " + arr + ")"
+}
+
+// splitSexp splits a space-separated sequence of s-expressions at top level.
+func splitSexp(s string) []string {
+	var out []string
+	depth, start := 0, 0
+	inBar := false
+	for i := 0; i < len(s); i++ {
+		switch {
+		case s[i] == '|':
+			inBar = !inBar
+		case inBar:
+		case s[i] == '(':
+			depth++
+		case s[i] == ')':
+			depth--
+		case s[i] == ' ' && depth == 0:
+			if i > start {
+				out = append(out, s[start:i])
+			}
+			start = i + 1
+		}
+	}
+	if start < len(s) {
+		out = append(out, s[start:])
+	}
+	return out
 }
 
 func (vc *VC) setElemArray(st *State, t types.Type, arr, value string) {
